@@ -326,6 +326,62 @@ theorem workloadMode_order_independent {ps ps' : List PA} (hu : UniqueKeys ps) (
   rw [compose_eq_spec hu root w hs, compose_eq_spec (uniqueKeys_perm hu hp) root w hs,
     effectiveMode_order_independent hu hp]
 
+/-! ## The two notions the specification shares with the model, characterised independently
+
+`Spec.lean` uses the model's comparator `cfgLe` and selector test `selects`.  These theorems say
+what they are without reference to the code's shape, so that the specification can be read on its own. -/
+
+/-- "Older" is the lexicographic order on (creation time, name, namespace). -/
+theorem cfgLe_is_lexicographic (a b : PA) : cfgLe a b = true ↔
+    a.time < b.time ∨ (a.time = b.time ∧ (a.name < b.name ∨ (a.name = b.name ∧ a.ns ≤ b.ns))) :=
+  cfgLe_iff a b
+
+theorem lookup_some_mem_keys {l : Labels} {k v : String} (h : l.lookup k = some v) : k ∈ l.map (fun e => e.1) := by
+  induction l with
+  | nil => simp at h
+  | cons e t ih =>
+    cases e with
+    | mk a b =>
+      simp only [List.lookup_cons] at h
+      cases hk : k == a with
+      | true => have : k = a := by simpa using hk
+                simp [this]
+      | false => rw [hk] at h; exact List.mem_cons_of_mem _ (ih h)
+
+/-- A selector (a map: distinct keys) selects a workload iff every selector label is a label of the
+    workload with the same value; the length pre-checks of `labels.Instance.SubsetOf` add nothing. -/
+theorem selects_iff (p : PA) (w : Workload) (hn : (p.matchLabels.map (fun e => e.1)).Nodup) :
+    selects p w = true ↔ ∀ kv ∈ p.matchLabels, w.labels.lookup kv.1 = some kv.2 := by
+  unfold selects subsetOf
+  generalize p.matchLabels = i at hn
+  by_cases hi : i.isEmpty = true
+  · have : i = [] := by simpa using hi
+    subst this; simp
+  · simp only [hi, Bool.false_eq_true, if_false]
+    constructor
+    · intro h
+      split at h
+      · cases h
+      · intro kv hkv
+        have := (List.all_eq_true.mp h) kv hkv
+        simpa using this
+    · intro h
+      have hsub : i.map (fun e => e.1) ⊆ w.labels.map (fun e => e.1) := by
+        intro k hk
+        obtain ⟨kv, hkv, rfl⟩ := List.mem_map.mp hk
+        exact lookup_some_mem_keys (h kv hkv)
+      have hlen := List.Nodup.length_le_of_subset hn hsub
+      simp only [List.length_map] at hlen
+      have hne : w.labels.isEmpty = false := by
+        cases hw : w.labels with
+        | nil => rw [hw] at hlen; cases i <;> simp_all
+        | cons _ _ => rfl
+      have hlt : ¬ w.labels.length < i.length := by omega
+      simp only [hne, Bool.false_or, decide_eq_true_eq, hlt, if_false]
+      rw [List.all_eq_true]
+      intro kv hkv
+      simp [h kv hkv]
+
 /-! ## Readable precedence clauses (corollaries about the specification) -/
 
 /-- No policy at all: PERMISSIVE. -/
@@ -486,6 +542,83 @@ theorem client_destination_rule_overrides (ps : List PA) (root : String) (w : Wo
 /-- An endpoint without sidecar (`tlsMode` label not `istio`) is never sent mTLS. -/
 theorem client_plain_endpoint (ps : List PA) (root : String) (w : Workload) (port : Nat) :
     checkMtlsEnabled root ps none false w port = false := rfl
+
+/-! ## Clause 2c: the per-proxy filtered view (`SidecarScope.selectAuthnPolicies`) loses nothing
+
+Production does not hand the client-side code the full `AuthenticationPolicies` but
+`FilterPeerAuthenticationNamespaces(client namespace, root namespace, namespaces of imported services)`.
+The filter preserves every resolver for workloads / services of the kept namespaces. -/
+
+theorem modeFor_initAuthn (root : String) (ps : List PA) (w : Workload) (port : Nat) :
+    (initAuthn root ps).modeFor w port = workloadMode root ps w port := rfl
+
+theorem filterNs_forNs (a : Authn) (nss : List String) (w : Workload) (n : String) (hn : n ∈ nss) :
+    (a.filterNs nss).forNs w n = a.forNs w n := by
+  unfold Authn.forNs Authn.filterNs
+  simp only [List.filter_filter]
+  apply List.filter_congr
+  intro c _
+  by_cases hc : c.ns = n
+  · have : nss.contains c.ns = true := by rw [hc]; simpa using hn
+    simp [hc, this, hn]
+  · have : (c.ns == n) = false := by simp [hc]
+    simp [this]
+
+/-- The filtered view returns the same configs for a workload of a kept namespace. -/
+theorem filterNs_configsFor (a : Authn) (nss : List String) (w : Workload) (hs : w.svcNs = [])
+    (h1 : w.ns ∈ nss) (h2 : a.rootNs ∈ nss) : (a.filterNs nss).configsFor w = a.configsFor w := by
+  have hr : (a.filterNs nss).rootNs = a.rootNs := rfl
+  by_cases hroot : w.ns = a.rootNs
+  · rw [configsFor_root hs (by rw [hr]; exact hroot), configsFor_root hs hroot, hr, filterNs_forNs a nss w _ h2]
+  · rw [configsFor_nonroot hs (by rw [hr]; exact hroot), configsFor_nonroot hs hroot, hr,
+      filterNs_forNs a nss w _ h1, filterNs_forNs a nss w _ h2]
+
+theorem filterNs_modeFor (a : Authn) (nss : List String) (w : Workload) (hs : w.svcNs = [])
+    (h1 : w.ns ∈ nss) (h2 : a.rootNs ∈ nss) (port : Nat) :
+    (a.filterNs nss).modeFor w port = a.modeFor w port := by
+  unfold Authn.modeFor
+  rw [filterNs_configsFor a nss w hs h1 h2]
+  rfl
+
+theorem lookup_filter_key {β : Type} (l : List (String × β)) (nss : List String) (n : String) (hn : n ∈ nss) :
+    (l.filter (fun e => nss.contains e.1)).lookup n = l.lookup n := by
+  induction l with
+  | nil => rfl
+  | cons e t ih =>
+    cases e with
+    | mk k v =>
+      have ih2 : List.lookup n (List.filter (fun e => decide (e.fst ∈ nss)) t) = List.lookup n t := by
+        simpa using ih
+      by_cases hk : n = k
+      · subst hk
+        simp [List.filter_cons, hn, List.lookup_cons]
+      · have hb : (n == k) = false := by simp [hk]
+        by_cases hc : k ∈ nss <;> simp [List.filter_cons, hc, List.lookup_cons, hb, ih2]
+
+theorem filterNs_namespaceMode (a : Authn) (nss : List String) (n : String) (hn : n ∈ nss) :
+    (a.filterNs nss).namespaceMode n = a.namespaceMode n := by
+  unfold Authn.namespaceMode Authn.filterNs
+  simp only [lookup_filter_key a.nsMode nss n hn]
+
+/-- **client_agrees_scoped.**  `checkMtlsEnabled` evaluated on the client proxy's filtered view - as the
+    EDS generator does - enables auto-mTLS towards an endpoint exactly when the endpoint port's
+    effective mode is not DISABLE, provided the endpoint's namespace is one of the namespaces the
+    sidecar scope keeps (client namespace, root namespace, namespaces of imported services). -/
+theorem client_agrees_scoped {ps : List PA} (hu : UniqueKeys ps) (root clientNs : String) (importedNs : List String)
+    (w : Workload) (hs : w.svcNs = []) (hw : w.ns ∈ clientNs :: root :: importedNs) (port : Nat) :
+    checkMtlsEnabledIn (sidecarView root ps clientNs importedNs) none true w port = true ↔
+      effectiveMode ps root w port ≠ .disable := by
+  unfold checkMtlsEnabledIn sidecarView
+  rw [filterNs_modeFor _ _ w hs hw (by simp [initAuthn_root]), modeFor_initAuthn, compose_eq_spec hu root w hs]
+  simp
+
+/-- The namespace view the cluster builder uses on the filtered view is the unfiltered one. -/
+theorem client_service_mode_scoped (ps : List PA) (root clientNs : String) (importedNs : List String)
+    (ns : String) (hn : ns ∈ clientNs :: root :: importedNs) :
+    bestEffortServiceMode (sidecarView root ps clientNs importedNs) ns =
+      bestEffortServiceMode (initAuthn root ps) ns := by
+  unfold bestEffortServiceMode sidecarView
+  rw [filterNs_namespaceMode _ _ ns hn]
 
 /-! ## Non-vacuity: concrete policies meeting the hypotheses, with ties and several per level -/
 
